@@ -11,7 +11,7 @@ from c01 import shrink_candidates, in_envelope as _wf  # noqa
 PID = 'C04'
 KIND = 0
 IMPL = ('flat', 'impl_flat')
-COUNTS = dict(quick=250, thorough=6000)        # base cases; each is expanded over crash positions
+COUNTS = dict(quick=250, thorough=1500)        # base cases; each is expanded over crash positions
 RULE = ('base cases = C01 generator (well-formed flat machines, non-raising env, histories of 1-6 calls). For each '
         'base case the Coq engine computes the non-failing trace; every position k of it (quick: up to 8 sampled '
         'positions; thorough: all) becomes a case whose callback at position k raises (alternating Exception / '
@@ -91,7 +91,7 @@ def extra_checks(tier, seed):
     generated hierarchical cases as the single raising callback, on the synchronous hierarchical classes, compared
     with the Coq hierarchical engine (Hsm.v); the continuation of the history runs on the survivor."""
     import hsm
-    n = 120 if tier == 'quick' else 3000
+    n = 120 if tier == 'quick' else 700
     bases = []
     for i in range(n):
         rng = random.Random('C04h-%d-%d' % (seed, i))
